@@ -92,6 +92,7 @@ class Gen:
         self._n = outer._n_ref if outer else [0]
         self._n_ref = self._n
         self.captured: set[str] = set()
+        self.force_out: list = []
 
     # ------------------------------------------------------------------ names / pool
     def fresh(self, hint="t"):
@@ -1013,6 +1014,13 @@ def m_identity_out(g):
     x = g.pick()
     y = g.add("Identity", [x], mag=x.mag)
     g.hit("motif:identity")
+    if g.depth == 0 and g.rng.random() < 0.5:
+        # graph outputs that are Identity of one value: once, or twice of the SAME value (both must survive, in order)
+        g.force_out.append(y)
+        if g.rng.random() < 0.6:
+            y2 = g.add("Identity", [x], mag=x.mag)
+            g.force_out.append(y2)
+            g.hit("motif:identity_twice_as_outputs")
     return y
 
 
@@ -1265,17 +1273,17 @@ def grow(g, n_nodes, allow_inputs=True, table=None):
         if not g.visible():
             g.const(example_input(g.rng, F32, [2, 3], "small"))
         fn = g.rng.choices(fns, weights=ws, k=1)[0]
-        mark = (len(g.nodes), len(g.inits), len(g.vals), len(g.functions), len(g.inputs), len(g.init_inputs))
+        mark = (len(g.nodes), len(g.inits), len(g.vals), len(g.functions), len(g.inputs), len(g.init_inputs), len(g.force_out))
         try:
             fn(g)
         except Bail:
             # roll back anything half-added by the constructor (constants etc.)
             del g.nodes[mark[0]:], g.inits[mark[1]:], g.vals[mark[2]:], g.functions[mark[3]:]
-            del g.inputs[mark[4]:], g.init_inputs[mark[5]:]
+            del g.inputs[mark[4]:], g.init_inputs[mark[5]:], g.force_out[mark[6]:]
             g.hit("bail")
         except (ValueError, IndexError, TypeError) as e:
             del g.nodes[mark[0]:], g.inits[mark[1]:], g.vals[mark[2]:], g.functions[mark[3]:]
-            del g.inputs[mark[4]:], g.init_inputs[mark[5]:]
+            del g.inputs[mark[4]:], g.init_inputs[mark[5]:], g.force_out[mark[6]:]
             g.hit("bail_exc")
 
 
@@ -1305,6 +1313,9 @@ def finish(g, n_outputs=None, name="gen"):
         rest = [v for v in cands if v not in outs]
         rng.shuffle(rest)
         outs.extend(rest[: n_outputs - len(outs)])
+    for v in g.force_out:
+        if v not in outs and v in g.vals:
+            outs.append(v)
     # make every remaining leaf an output too with small probability (else it is dead code: DCE fodder)
     for v in leaves:
         if v not in outs and rng.random() < 0.3:
